@@ -42,6 +42,25 @@ func run(items []string) []string {
 			results = append(results, "-")
 			continue
 		}
+		if len(it) > 1 && (it[0] == 'F' || it[0] == 'R') && strings.IndexByte(it, '|') < 0 {
+			// F<addr>: the stored record of <addr> is rewritten as another release of the program would have written it: the same
+			// JSON with extra members this release does not know (top level and nested).  R<ns>: time passes in the storage
+			// service itself (key time-to-live), not only on the application's clock.  Neither is a repository call: the
+			// registry and the queue must behave as if nothing had happened.
+			if it[0] == 'F' {
+				if raw := w.MR.HGet("servers:items", it[1:]); strings.HasPrefix(raw, "{") {
+					raw = `{"ZzRegion":{"code":"eu","n":[1,2]},` + raw[1:]
+					raw = strings.Replace(raw, `"Info":{`, `"Info":{"ZzNewField":"x",`, 1)
+					raw = strings.Replace(raw, `"Details":{`, `"Details":{"ZzMore":null,`, 1)
+					w.MR.HSet("servers:items", it[1:], raw)
+				}
+			} else {
+				ns, _ := strconv.ParseInt(it[1:], 10, 64)
+				w.MR.FastForward(time.Duration(ns))
+			}
+			results = append(results, "-")
+			continue
+		}
 		results = append(results, storeops.RunCall(p, it))
 	}
 	return []string{"res=" + strings.Join(results, ";"), "dump=" + strings.Join(w.Dump(), ";")}
@@ -67,6 +86,9 @@ func bigRegistry(rng *rand.Rand, n int, emit core.Emit) {
 		}
 		// every record carries 1–3 players (a fetch that decodes into reused memory mixes up neighbours' lists)
 		items = append(items, fmt.Sprintf("add|%s/10481/%d/0/%d/p%d|refuse", a, st, epoch-int64(i%5)*256000, 1+(i*7)%3))
+	}
+	for i := 0; i < n; i += 1 + n/7 {
+		items = append(items, fmt.Sprintf("F10.%d.%d.%d:10480", i/65536, i/256%256, i%256))
 	}
 	items = append(items, "count", "countby", "filter|0|0|z|z|z|z", "filter|2|0|z|z|z|z", "filter|6|0|z|z|z|z", "filter|8|0|z|z|z|z", "filter|0|8|z|z|z|z", "filter|1|0|z|z|z|z",
 		fmt.Sprintf("filter|2|0|%d|z|z|z", epoch-2*256000), fmt.Sprintf("filter|0|0|z|%d|z|z", epoch-2*256000))
@@ -101,7 +123,7 @@ func bigQueue(n int, emit core.Emit) {
 		}
 		items = append(items, fmt.Sprintf("penq|10.%d.%d.%d:10480|10481|%d|%d|3|%d|%s", i/65536, i/256%256, i%256, i%2, i%4, epoch-int64(n-i)*256, exp))
 	}
-	items = append(items, "t512000", fmt.Sprintf("ppop|%d", n/2), fmt.Sprintf("ppop|%d", n), "ppop|1")
+	items = append(items, "t512000", "R100000000000000", fmt.Sprintf("ppop|%d", n/2), fmt.Sprintf("ppop|%d", n), "ppop|1")
 	emit("hist", strings.Join(items, ","))
 }
 
@@ -153,6 +175,9 @@ func gen(rng *rand.Rand, tier core.Tier, emit core.Emit) {
 					refreshed = fmt.Sprint(t)
 					times = append(times, t)
 				}
+				if rng.Intn(14) == 0 { // a refresh time before 1970 (negative nanoseconds): scores are not bounded below by 0
+					refreshed = fmt.Sprint(-256 * int64(1+rng.Intn(1000)))
+				}
 				res := []string{"refuse", "accept", "merge", "over"}[rng.Intn(4)]
 				players := ""
 				if rng.Intn(3) == 0 {
@@ -161,6 +186,12 @@ func gen(rng *rand.Rand, tier core.Tier, emit core.Emit) {
 				items = append(items, fmt.Sprintf("%s|%s/%d/%d/%d/%s%s|%s", kind, a, 10000+rng.Intn(5), rng.Intn(512), v, refreshed, players, res))
 				vers[a] += 1 // rough upper estimate, only steers the choice of caller versions
 			case r < 11:
+				if rng.Intn(4) == 0 {
+					items = append(items, "F"+a) // the record as another release would have left it (unknown JSON members)
+				}
+				if rng.Intn(40) == 0 {
+					items = append(items, "R100000000000000") // more than a day passes in the storage service
+				}
 				items = append(items, "get|"+a)
 			case r < 12:
 				items = append(items, []string{"count", "countby"}[rng.Intn(2)])
@@ -168,6 +199,9 @@ func gen(rng *rand.Rand, tier core.Tier, emit core.Emit) {
 				bound := func() string {
 					if rng.Intn(3) == 0 {
 						return "z"
+					}
+					if rng.Intn(10) == 0 {
+						return []string{"0", "-256", "-256000", "256"}[rng.Intn(4)]
 					}
 					return fmt.Sprint(times[rng.Intn(len(times))] + int64(rng.Intn(3)-1)*256)
 				}
